@@ -184,6 +184,21 @@ def closure_form_decls():
     return decls
 
 
+def mixed_validation_rows(rows):
+    """slice V of MC_Decl: validate(..) blocks that mix `with`/`error` with built-in validators. Such a block cannot be honoured
+    (one error type, two rule sets): C02 demands rejection. -> {id: surface src}"""
+    out = {}
+    for k, obj in sorted(rows.items()):
+        src = obj["src"]
+        if src["name"] != "Nt" or src["tparams"] or len(src["blocks"]) != 1 or src["blocks"][0]["bk"] != "validate":
+            continue
+        ws = [v["w"] for v in src["blocks"][0]["val"]]
+        std = [w for w in ws if w not in ("with", "error")]
+        if std and ("with" in ws or "error" in ws):
+            out["mx_" + k] = src
+    return out
+
+
 def check_C02():
     t = Timer()
     rng = random.Random(seed())
@@ -200,6 +215,17 @@ def check_C02():
         ep = "try_new" if d["vmode"] != "none" else "new"
         return [{"d": d["id"], "ep": ep, "ins": [VL.enc_value(d, v) for v in d["cells"]]}]
     obs, rejected, alive = CV.build_and_run("c02", decls, rows_of, ["serde"], ["serde"], nshards=4)
+    # mixed validate blocks: accepted = a written rule is dropped
+    from .props_decl import build_verdicts
+    mixed = mixed_validation_rows(rows)
+    mv = build_verdicts("c02_mixed", {k: {"src": dict(src, feats=["serde"])} for k, src in mixed.items()}, nshards=1) if mixed else {}
+    for k, (vd, _msgs) in sorted(mv.items()):
+        if vd == "accepted":
+            from .render_decl import decl_only
+            verdict.violation({"property": "C02", "decl": k, "family": mixed[k]["fam"], "ty": mixed[k]["ty"], "tag": "mixed_validation", "kind": "accepted",
+                               "declaration": decl_only(mixed[k]),
+                               "summary": "[mixed_validation] %s is accepted although it mixes with/error with built-in validators: one of the written rules cannot be enforced :: %s" % (
+                                   k, decl_only(mixed[k]).strip().replace("\n", " ")[-160:])})
     alive_decls = [d for d in decls if d["id"] in set(alive)]
     by_id0 = {d["id"]: d for d in decls}
     probe_failed = set()
@@ -235,7 +261,7 @@ def check_C02():
         verdict.drift += len(mism)
     cov = {"states": rb.distinct + rd.distinct + stats.get("trace_states", 0), "transitions": rb.generated + rd.generated,
            "traces_validated_against_impl": stats.get("trace_pairs", 0),
-           "spellings": len(spells), "declarations": len(decls), "accepted_by_the_real_macro": len(alive), "rejected": len(rejected),
+           "spellings": len(spells), "declarations": len(decls), "mixed_validation_blocks": len(mixed), "accepted_by_the_real_macro": len(alive), "rejected": len(rejected),
            "evaluations": stats.get("trace_pairs", 0), "distinct_nontrivial": len(alive),
            "rule": "every spelling of the catalogue (x i8/i32/f64 x two validator kinds) and every repeated-block / block-order layout is compiled against /repo; "
                    "accepted ones are driven at the cells around the DENOTED bound (and around the value the transcribed parser predicts) and validated by TLC "
